@@ -48,8 +48,8 @@ CLAIMED = {
    note="Chains longer than 63 handlers (possible because global middleware is not counted by the registration-time limit) are a recorded known finding, matched by the signature chain>63 only.",
    ref="DESIGN.md §4.3"),
  "C16": dict(
-   technique="deterministic simulation (thin claim): the map-iteration order inside Resource is behind a verif seam and drawn from the seed; all 256 generated controller types x seeded registration orders x method/path probes (sequential and as concurrent clients) against the documented REST table",
-   text="Run index r uses action subset r mod 128 and Uses() iff r/128 is odd, so every 256 consecutive runs cover all controller types, each with a seeded permutation of the seven actions' registration order, base path (/, /api/, nested group), options and 7 methods x 9 relative paths of probes; oracle: the documented table (registered routes and names, which action serves which probe with which id, which Uses() middleware ran, everything else 404/405, non-pointer / non-struct controllers rejected); a failure that disappears in sorted order is classed order-dependent. Thin: nothing but the registration order (and, in the concurrent profile, the interleaving of probes) is schedule-dependent. The 256 types are covered completely; the 5040 orders are sampled.",
+   technique="deterministic simulation (thin claim): all 256 generated controller types x base paths (also with a path variable, mixed case, nested groups, second registrations) x method/path probes, sequentially and as concurrent clients under the seeded scheduler, pool and cache seams, against the documented REST table",
+   text="Run index r uses action subset r mod 128 and Uses() iff r/128 is odd, so every 256 consecutive runs cover all controller types, each with a seeded base path (/, /api/, mixed case, /shops/{shop}/, nested group), group and resource middleware shapes, options, an optional second registration (same value or a new instance) and 7 methods x 9 relative paths of probes; oracle: the documented table (registered routes and names, which action and which controller instance serves which probe with which id, which Uses() middleware ran, everything else 404/405, non-pointer / non-struct / pointer-to-pointer controllers rejected). Thin: the map-iteration order inside Resource used to be behind a seam and drawn from the seed; that is how the check found that create could be served by show (repaired: Resource now registers in a fixed order and the seam is gone). What the simulator still owns here is the interleaving of the probes, the route cache and the context pool; the sequential profile is model-based testing of the table.",
    note="HEAD and OPTIONS probes are left out (their fallback behaviour is C06). Base paths not ending in / are left out (Resource(\"/api\", c) yields /apiproduct; the statement does not say whether that is intended).",
    ref="DESIGN.md §4.9"),
 }
